@@ -4,13 +4,15 @@ from .driver import Case
 HEADER = "From Coq Require Import List ZArith. Import ListNotations. From RM Require Import Exec. Open Scope Z_scope."
 
 ERRDELAY = 3      # ms the (awaited) error callback of the futures+fallible executor takes in the harness
-def mk_case(kind, chan, L, tau, tclose, items, instr="metrics", R=0):
-    line = "exec kind=%s chan=%s L=%d tau=%d tclose=%d instr=%s%s ; %s ; S" % (kind, chan, L, tau, tclose, instr, " R=%d" % R if R else "", " ".join("it:%d:%d" % (d, int(f)) for d, f in items))
+def mk_case(kind, chan, L, tau, tclose, items, instr="metrics", R=0, tpre=0, precancel=0):
+    line = "exec kind=%s chan=%s L=%d tau=%d tclose=%d instr=%s%s%s%s ; %s ; S" % (kind, chan, L, tau, tclose, instr, " R=%d" % R if R else "",
+            " tpre=%d" % tpre if tpre else "", " precancel=1" if precancel else "", " ".join("it:%d:%d" % (d, int(f)) for d, f in items))
     its = "[%s]" % "; ".join("{| dur := %d; fails := %s |}" % (d, "true" if f else "false") for d, f in items)
     met = "false" if instr == "none" else "true"
     coq = ("exec_trace %d %d %d %s %s %d" % (L, tau, ERRDELAY if kind == "ff" else 0, met, its, tclose)) if kind in ("ff", "fn") else ("exec_trace_sync %s %s" % (met, its))
     if kind == "fb": coq = None          # a pipeline that reads ahead of the executor (`.buffered(R)`): no model, judged by the oracle only
-    return Case(line, coq, dict(profile="exec", kind=kind, chan=chan, L=L, tau=tau, tclose=tclose, items=items, instr=instr, R=R))
+    if tpre or precancel: coq = None     # the unbounded close comes after a bounded one / a cancel_all_streams(): oracle only
+    return Case(line, coq, dict(profile="exec", kind=kind, chan=chan, L=L, tau=tau, tclose=tclose, items=items, instr=instr, R=R, tpre=tpre, precancel=precancel))
 
 def parse_case_line(line):
     secs = [s.strip() for s in line.split(";")]
@@ -18,7 +20,8 @@ def parse_case_line(line):
     if secs[0].startswith("status"): return mk_status(params["sched"], int(params["n"]))
     if secs[0].startswith("latch"): return mk_latch(int(params["M"]), int(params["n"]), int(params["tclose"]))
     items = [(int(t.split(":")[1]), t.split(":")[2] == "1") for t in secs[1].split()]
-    return mk_case(params["kind"], params["chan"], int(params["L"]), int(params["tau"]), int(params["tclose"]), items, params.get("instr", "metrics"), int(params.get("R", 0)))
+    return mk_case(params["kind"], params["chan"], int(params["L"]), int(params["tau"]), int(params["tclose"]), items, params.get("instr", "metrics"), int(params.get("R", 0)),
+                   tpre=int(params.get("tpre", 0)), precancel=int(params.get("precancel", 0)))
 
 def gen_case(rng, maxL=4):
     kind = rng.choice(["ff", "ff", "ff", "fn", "nf", "nn"])
@@ -39,6 +42,20 @@ def gen_readahead_case(rng):
     n = rng.randint(1, 8)
     items = [(rng.choice([10, 20, 30, 40, 60]), False) for _ in range(n)]
     return mk_case("fb", rng.choice(["full_sync", "atomic", "crossbeam"]), 1, 0, rng.choice([0, 0, 5, 15, 25, 45]), items, rng.choice(["metrics", "none"]), R=rng.randint(2, 4))
+
+def gen_reclose_case(rng):
+    """the unbounded close is not the first thing that ends the streams: a bounded close that times out with events still buffered / in
+    flight (it cancels the streams), or a programmatic cancel_all_streams(), comes first; concurrency limit 1 (C06's positive half)"""
+    kind = rng.choice(["ff", "fn", "fn", "nf", "nn"])
+    chan = rng.choice(["full_sync", "atomic", "crossbeam"])
+    n = rng.randint(1, 8)
+    if kind in ("ff", "fn"):
+        items = [(rng.choice([10, 20, 30, 40, 60]), kind == "ff" and rng.random() < 0.2) for _ in range(n)]
+        tclose = rng.choice([0, 0, 5, 15, 25])
+    else:
+        items = [(0, kind == "nf" and rng.random() < 0.3) for _ in range(n)]; tclose = rng.choice([0, 5])
+    if rng.random() < 0.6: return mk_case(kind, chan, 1, 0, tclose, items, rng.choice(["metrics", "none"]), tpre=rng.choice([2, 7, 13, 27]))
+    return mk_case(kind, chan, 1, 0, tclose, items, rng.choice(["metrics", "none"]), precancel=1)
 
 SCHEDS = {"never": "[SStart; SFinish]", "before": "[SSched; SStart; SFinish]", "during": "[SStart; SSched; SFinish]", "endlog": "[SStart; SFinish; SSched]"}
 def mk_status(sched, n):
